@@ -1,9 +1,1015 @@
-//! C16 — (stub; not built yet)
+//! C16 — edge cut, lambda cut and imbalance agree with their definitions.
+//!
+//! ops (vectors are `<len> <x…>`):
+//! * `csr <indptr> <indices> <data> <partition> <weights>`   raw CSR storage of a square view
+//!     out: `eg=<generic edge cut> es=<sprs edge cut> lg=<generic lambda> ls=<sprs lambda>`
+//! * `grid2 <w> <h> <partition> <weights>` / `grid3 <w> <h> <d> <partition> <weights>`
+//!     out: `eg=<Grid edge cut> lg=<Grid lambda> ce=<lattice CSR, sprs edge cut> cl=<lattice CSR, sprs lambda>`
+//! * `nbrs2 <w> <h>` / `nbrs3 <w> <h> <d>`
+//!     out: `n=<len> nb=<neighbour lists in iterator order> pos=<position_of(i):index_of(position_of(i))…>`
+//! * `imb <k> <partition> <weights> <targets>`
+//!     out: `loads=[…] max=<max_imbalance> imb=<imbalance f64 bits> tgt=<imbalance_target>`
+//! A value is replaced by `panic(index|slice|assert)` when the call panics.
+//!
+//! Every topology call is made in rayon pools of 1, 4 and 16 threads; the three answers
+//! must be identical (oracle) and one is recorded.
 
 use crate::common::*;
+use coupe::sprs::{CompressedStorage, CsMatView, TriMat};
+use coupe::Topology;
+use std::collections::BTreeSet;
+use std::num::NonZeroUsize;
+use std::sync::OnceLock;
 
-pub fn generate(_ctx: &mut Ctx) {}
+type View<'a> = CsMatView<'a, i64>;
+
+const POOLS: [usize; 3] = [1, 4, 16];
+
+fn pools() -> &'static Vec<coupe::rayon::ThreadPool> {
+    static P: OnceLock<Vec<coupe::rayon::ThreadPool>> = OnceLock::new();
+    P.get_or_init(|| {
+        POOLS
+            .iter()
+            .map(|&t| coupe::rayon::ThreadPoolBuilder::new().num_threads(t).build().expect("pool"))
+            .collect()
+    })
+}
+
+/// `Ok(value)` or `Err(panic class)`.
+type Res<T> = Result<T, String>;
+
+fn class(m: &str) -> String {
+    let c = if m.contains("out of range for slice") || m.contains("slice index starts at") {
+        "slice"
+    } else if m.contains("index out of bounds") {
+        "index"
+    } else if m.contains("assertion") {
+        "assert"
+    } else {
+        return format!("panic(other:{})", m);
+    };
+    format!("panic({})", c)
+}
+
+fn guarded<T>(f: impl FnOnce() -> T) -> Res<T> {
+    match catch(f) {
+        Caught::Ok(v) => Ok(v),
+        Caught::Panic(m) => Err(class(&m)),
+        Caught::Hang => Err("hang".into()),
+    }
+}
+
+/// Run `f` in every pool; `Err(())` in `.1` if the pools disagree.
+fn in_pools<T: PartialEq + Clone + Send>(f: impl Fn() -> T + Sync + Send) -> (Res<T>, bool) {
+    let mut first: Option<Res<T>> = None;
+    let mut same = true;
+    for pool in pools() {
+        let r = guarded(|| pool.install(&f));
+        match &first {
+            None => first = Some(r),
+            Some(x) => {
+                if *x != r {
+                    same = false;
+                }
+            }
+        }
+    }
+    (first.unwrap(), same)
+}
+
+fn show<T: std::fmt::Display>(r: &Res<T>) -> String {
+    match r {
+        Ok(v) => v.to_string(),
+        Err(c) => c.clone(),
+    }
+}
+
+// ------------------------------------------------------------------ parsing
+
+struct Toks<'a>(std::str::SplitWhitespace<'a>);
+
+impl<'a> Toks<'a> {
+    fn one<T: std::str::FromStr>(&mut self) -> Option<T> {
+        self.0.next()?.parse().ok()
+    }
+    fn vec<T: std::str::FromStr>(&mut self) -> Option<Vec<T>> {
+        let n: usize = self.one()?;
+        if n > 1_000_000 {
+            return None;
+        }
+        let mut v = Vec::with_capacity(n);
+        for _ in 0..n {
+            v.push(self.one()?);
+        }
+        Some(v)
+    }
+    fn done(&mut self) -> bool {
+        self.0.next().is_none()
+    }
+}
+
+fn fmt_vec<T: std::fmt::Display>(v: &[T]) -> String {
+    if v.is_empty() {
+        "0".to_string()
+    } else {
+        format!("{} {}", v.len(), join(v))
+    }
+}
+
+// ------------------------------------------------------------------ naive definitions (oracle)
+
+/// Rows `(neighbour, weight)` of vertex `v` read from the raw arrays the way sprs documents them
+/// (the offset of a sliced view is the first `indptr` entry).
+fn rows_of(indptr: &[usize], indices: &[usize], data: &[i64]) -> Vec<Vec<(usize, i64)>> {
+    let off = indptr[0];
+    (0..indptr.len() - 1)
+        .map(|v| (indptr[v] - off..indptr[v + 1] - off).map(|k| (indices[k], data[k])).collect())
+        .collect()
+}
+
+fn dense(rows: &[Vec<(usize, i64)>]) -> Vec<Vec<i64>> {
+    let n = rows.len();
+    let mut d = vec![vec![0i64; n]; n];
+    for (v, r) in rows.iter().enumerate() {
+        for &(u, w) in r {
+            d[v][u] += w;
+        }
+    }
+    d
+}
+
+/// Definition: every unordered pair {i, j} in different parts contributes the weight of its edge,
+/// read below the diagonal (`d[i][j]`, `j < i`). For a symmetric matrix this is the textbook
+/// edge cut; for an asymmetric one it is what all three code paths document by construction.
+fn naive_edge_cut(d: &[Vec<i64>], p: &[usize]) -> i64 {
+    let mut s = 0;
+    for i in 0..d.len() {
+        for j in 0..i {
+            if p[i] != p[j] {
+                s += d[i][j];
+            }
+        }
+    }
+    s
+}
+
+/// Symmetric matrices only: half the sum over ordered pairs.
+fn naive_edge_cut_sym(d: &[Vec<i64>], p: &[usize]) -> i64 {
+    let mut s = 0;
+    for i in 0..d.len() {
+        for j in 0..d.len() {
+            if p[i] != p[j] {
+                s += d[i][j];
+            }
+        }
+    }
+    s / 2
+}
+
+/// Σ_v w(v) · (number of distinct parts in the closed neighbourhood − 1); the neighbourhood is
+/// the set of stored entries of the row (explicit zeros count, as in the code).
+fn naive_lambda(rows: &[Vec<(usize, i64)>], p: &[usize], ws: &[i64]) -> i64 {
+    let mut s = 0;
+    for v in 0..rows.len().min(ws.len()) {
+        let mut parts = BTreeSet::new();
+        parts.insert(p[v]);
+        for &(u, _) in &rows[v] {
+            parts.insert(p[u]);
+        }
+        s += ws[v] * (parts.len() as i64 - 1);
+    }
+    s
+}
+
+// ------------------------------------------------------------------ csr op
+
+struct Verdicts(Vec<(&'static str, String)>);
+
+impl Verdicts {
+    fn add(&mut self, sig: &'static str, what: String) {
+        self.0.push((sig, what));
+    }
+}
+
+fn run_csr(ctx: &mut Ctx, op: &str, t: &mut Toks) {
+    let parsed = (|| {
+        let indptr: Vec<usize> = t.vec()?;
+        let indices: Vec<usize> = t.vec()?;
+        let data: Vec<i64> = t.vec()?;
+        let p: Vec<usize> = t.vec()?;
+        let ws: Vec<i64> = t.vec()?;
+        if !t.done() {
+            return None;
+        }
+        Some((indptr, indices, data, p, ws))
+    })();
+    let Some((indptr, indices, data, p, ws)) = parsed else {
+        ctx.record(op.to_string(), "bad-op".into(), false);
+        return;
+    };
+    // shape check (everything sprs checks except the order inside a row)
+    let shaped = !indptr.is_empty()
+        && indptr.windows(2).all(|w| w[0] <= w[1])
+        && indptr[indptr.len() - 1] - indptr[0] == indices.len()
+        && indices.len() == data.len()
+        && indices.iter().all(|&u| u < indptr.len() - 1);
+    if !shaped {
+        ctx.record(op.to_string(), "bad-op".into(), false);
+        return;
+    }
+    let n = indptr.len() - 1;
+    let view: View = match CsMatView::try_new((n, n), &indptr[..], &indices[..], &data[..]) {
+        Ok(v) => {
+            ctx.count("csr:valid");
+            v
+        }
+        Err(_) => {
+            ctx.count("csr:unsorted_rows(new_unchecked)");
+            // SAFETY: sizes and index ranges were checked above; only the order inside the rows
+            // is not what sprs requires, and every access made by coupe and by `outer_view` is a
+            // checked slice access.
+            unsafe { CsMatView::new_unchecked(CompressedStorage::CSR, (n, n), &indptr[..], &indices[..], &data[..]) }
+        }
+    };
+    let valid = view.check_compressed_structure().is_ok();
+    let offset = indptr[0] != 0;
+    let (eg, s1) = in_pools(|| <&View as Topology<i64>>::edge_cut(&&view, &p));
+    let (es, s2) = in_pools(|| <View as Topology<i64>>::edge_cut(&view, &p));
+    let (lg, s3) = in_pools(|| <&View as Topology<i64>>::lambda_cut(&&view, &p, ws.clone()));
+    let (ls, s4) = in_pools(|| <View as Topology<i64>>::lambda_cut(&view, &p, ws.clone()));
+    let out = format!("eg={} es={} lg={} ls={}", show(&eg), show(&es), show(&lg), show(&ls));
+
+    // oracle
+    let mut v = Verdicts(vec![]);
+    if !(s1 && s2 && s3 && s4) {
+        v.add("pool-dependent", "the answer depends on the rayon pool size".into());
+    }
+    let rows = rows_of(&indptr, &indices, &data);
+    let d = dense(&rows);
+    let symmetric = (0..n).all(|i| (0..n).all(|j| d[i][j] == d[j][i]));
+    let reads_ok = p.len() >= n;
+    if reads_ok {
+        let want_e = naive_edge_cut(&d, &p);
+        let want_l = naive_lambda(&rows, &p, &ws);
+        if symmetric && naive_edge_cut_sym(&d, &p) != want_e {
+            v.add("oracle-self-check", "two forms of the definition differ".into());
+        }
+        if eg != Ok(want_e) {
+            v.add("generic-edge-cut", format!("generic edge_cut {} but the definition gives {}", show(&eg), want_e));
+        }
+        if lg != Ok(want_l) {
+            v.add("generic-lambda-cut", format!("generic lambda_cut {} but the definition gives {}", show(&lg), want_l));
+        }
+        if valid {
+            if es != Ok(want_e) {
+                let sig = if offset && es.is_err() { "sprs-offset-indptr-panic" } else { "sprs-edge-cut" };
+                v.add(sig, format!("sprs edge_cut {} but the definition (and the generic method) give {}", show(&es), want_e));
+            }
+            if ls != Ok(want_l) {
+                let sig = if offset && ls.is_err() { "sprs-offset-indptr-panic" } else { "sprs-lambda-cut" };
+                v.add(sig, format!("sprs lambda_cut {} but the definition (and the generic method) give {}", show(&ls), want_l));
+            }
+        } else {
+            // precondition of the specialisation (sorted rows) not met: only counted
+            if es != Ok(want_e) {
+                ctx.count("csr:unsorted:sprs_edge_cut_differs");
+            } else {
+                ctx.count("csr:unsorted:sprs_edge_cut_agrees");
+            }
+            if ls != Ok(want_l) {
+                v.add("sprs-lambda-cut", format!("sprs lambda_cut {} on unsorted rows, definition {}", show(&ls), want_l));
+            }
+        }
+    } else {
+        // malformed: partition shorter than the matrix; every path must refuse (panic), none may
+        // return a number
+        ctx.count("csr:short_partition");
+        if n > 0 && (eg.is_ok() || es.is_ok()) {
+            v.add("short-partition-accepted", format!("edge_cut answered {} / {} on a short partition", show(&eg), show(&es)));
+        }
+    }
+    ctx.count(if symmetric { "csr:symmetric" } else { "csr:asymmetric" });
+    if offset {
+        ctx.count("csr:offset_indptr");
+    }
+    if rows.iter().any(|r| r.is_empty()) {
+        ctx.count("csr:has_empty_row");
+    }
+    if ws.len() != n {
+        ctx.count("csr:weights_len_differs");
+    }
+    let nontrivial = reads_ok && n >= 2 && !indices.is_empty() && p.iter().take(n).any(|&x| x != p[0]);
+    let idx = ctx.record(op.to_string(), out, nontrivial);
+    for (sig, what) in v.0 {
+        ctx.fail(idx, sig, what);
+    }
+}
+
+// ------------------------------------------------------------------ grid ops
+
+fn nz(x: usize) -> NonZeroUsize {
+    NonZeroUsize::new(x).unwrap()
+}
+
+/// Coordinates of cell `i`, by enumeration (x fastest, then y, then z).
+fn coords(w: usize, h: usize, d: usize) -> Vec<[usize; 3]> {
+    let mut c = Vec::with_capacity(w * h * d);
+    for z in 0..d {
+        for y in 0..h {
+            for x in 0..w {
+                c.push([x, y, z]);
+            }
+        }
+    }
+    c
+}
+
+fn l1(a: &[usize; 3], b: &[usize; 3]) -> usize {
+    (0..3).map(|k| a[k].abs_diff(b[k])).sum()
+}
+
+/// The lattice as rows of neighbours at L1 distance 1, increasing (O(n²)).
+fn lattice_rows(c: &[[usize; 3]]) -> Vec<Vec<(usize, i64)>> {
+    (0..c.len())
+        .map(|i| (0..c.len()).filter(|&j| l1(&c[i], &c[j]) == 1).map(|j| (j, 1i64)).collect())
+        .collect()
+}
+
+enum G {
+    D2(coupe::Grid<2>),
+    D3(coupe::Grid<3>),
+}
+
+impl G {
+    fn edge_cut(&self, p: &[usize]) -> i64 {
+        match self {
+            G::D2(g) => Topology::<i64>::edge_cut(g, p),
+            G::D3(g) => Topology::<i64>::edge_cut(g, p),
+        }
+    }
+    fn lambda_cut(&self, p: &[usize], ws: Vec<i64>) -> i64 {
+        match self {
+            G::D2(g) => Topology::<i64>::lambda_cut(g, p, ws),
+            G::D3(g) => Topology::<i64>::lambda_cut(g, p, ws),
+        }
+    }
+    fn len(&self) -> usize {
+        match self {
+            G::D2(g) => Topology::<i64>::len(g),
+            G::D3(g) => Topology::<i64>::len(g),
+        }
+    }
+    fn neighbors(&self, v: usize) -> Vec<(usize, i64)> {
+        match self {
+            G::D2(g) => Topology::<i64>::neighbors(g, v).collect(),
+            G::D3(g) => Topology::<i64>::neighbors(g, v).collect(),
+        }
+    }
+}
+
+fn run_grid(ctx: &mut Ctx, op: &str, t: &mut Toks, dim: usize) {
+    let parsed = (|| {
+        let w: usize = t.one()?;
+        let h: usize = t.one()?;
+        let d: usize = if dim == 3 { t.one()? } else { 1 };
+        let p: Vec<usize> = t.vec()?;
+        let ws: Vec<i64> = t.vec()?;
+        if !t.done() || w == 0 || h == 0 || d == 0 || w * h * d > 100_000 {
+            return None;
+        }
+        Some((w, h, d, p, ws))
+    })();
+    let Some((w, h, d, p, ws)) = parsed else {
+        ctx.record(op.to_string(), "bad-op".into(), false);
+        return;
+    };
+    let g = if dim == 2 { G::D2(coupe::Grid::new_2d(nz(w), nz(h))) } else { G::D3(coupe::Grid::new_3d(nz(w), nz(h), nz(d))) };
+    let n = w * h * d;
+    let c = coords(w, h, d);
+    let rows = lattice_rows(&c);
+    // the CSR lattice, built from the definition through sprs' triplet format
+    let mut tri = TriMat::new((n, n));
+    for (i, r) in rows.iter().enumerate() {
+        for &(j, wt) in r {
+            tri.add_triplet(i, j, wt);
+        }
+    }
+    let csr: coupe::sprs::CsMat<i64> = tri.to_csr();
+    let view = csr.view();
+
+    let (eg, s1) = in_pools(|| g.edge_cut(&p));
+    let (lg, s2) = in_pools(|| g.lambda_cut(&p, ws.clone()));
+    let (ce, s3) = in_pools(|| <View as Topology<i64>>::edge_cut(&view, &p));
+    let (cl, s4) = in_pools(|| <View as Topology<i64>>::lambda_cut(&view, &p, ws.clone()));
+    let (cge, s5) = in_pools(|| <&View as Topology<i64>>::edge_cut(&&view, &p));
+    let (cgl, s6) = in_pools(|| <&View as Topology<i64>>::lambda_cut(&&view, &p, ws.clone()));
+    let out = format!("eg={} lg={} ce={} cl={}", show(&eg), show(&lg), show(&ce), show(&cl));
+
+    let mut v = Verdicts(vec![]);
+    if !(s1 && s2 && s3 && s4 && s5 && s6) {
+        v.add("pool-dependent", "the answer depends on the rayon pool size".into());
+    }
+    if g.len() != n {
+        v.add("grid-len", format!("Grid len {} but {} cells", g.len(), n));
+    }
+    let reads_ok = p.len() >= n;
+    if reads_ok {
+        let dm = dense(&rows);
+        let want_e = naive_edge_cut_sym(&dm, &p);
+        let want_l = naive_lambda(&rows, &p, &ws);
+        for (name, got, want) in [
+            ("grid-edge-cut", &eg, want_e),
+            ("grid-lambda-cut", &lg, want_l),
+            ("lattice-sprs-edge-cut", &ce, want_e),
+            ("lattice-sprs-lambda-cut", &cl, want_l),
+            ("lattice-generic-edge-cut", &cge, want_e),
+            ("lattice-generic-lambda-cut", &cgl, want_l),
+        ] {
+            if *got != Ok(want) {
+                v.add(name, format!("{} but the definition gives {}", show(got), want));
+            }
+        }
+    } else {
+        ctx.count("grid:short_partition");
+        if eg.is_ok() || ce.is_ok() {
+            v.add("short-partition-accepted", "edge_cut answered on a short partition".into());
+        }
+    }
+    ctx.count(&format!("grid{}d", dim));
+    let parts: BTreeSet<usize> = p.iter().take(n).cloned().collect();
+    ctx.count(&format!("grid:parts={}", parts.len().min(6)));
+    let nontrivial = reads_ok && n >= 2 && parts.len() >= 2;
+    let idx = ctx.record(op.to_string(), out, nontrivial);
+    for (sig, what) in v.0 {
+        ctx.fail(idx, sig, what);
+    }
+}
+
+fn run_nbrs(ctx: &mut Ctx, op: &str, t: &mut Toks, dim: usize) {
+    let parsed = (|| {
+        let w: usize = t.one()?;
+        let h: usize = t.one()?;
+        let d: usize = if dim == 3 { t.one()? } else { 1 };
+        if !t.done() || w == 0 || h == 0 || d == 0 || w * h * d > 100_000 {
+            return None;
+        }
+        Some((w, h, d))
+    })();
+    let Some((w, h, d)) = parsed else {
+        ctx.record(op.to_string(), "bad-op".into(), false);
+        return;
+    };
+    let n = w * h * d;
+    let c = coords(w, h, d);
+    let g2 = coupe::Grid::new_2d(nz(w), nz(h));
+    let g3 = coupe::Grid::new_3d(nz(w), nz(h), nz(d));
+    let g = if dim == 2 { G::D2(g2) } else { G::D3(g3) };
+    let mut v = Verdicts(vec![]);
+    let res = guarded(|| {
+        let nb: Vec<Vec<(usize, i64)>> = (0..n).map(|i| g.neighbors(i)).collect();
+        let pos: Vec<(Vec<usize>, usize)> = (0..n)
+            .map(|i| {
+                if dim == 2 {
+                    let q = coupe::verif::cartesian::position_of(g2, i);
+                    (q.to_vec(), coupe::verif::cartesian::index_of(g2, q))
+                } else {
+                    let q = coupe::verif::cartesian::position_of(g3, i);
+                    (q.to_vec(), coupe::verif::cartesian::index_of(g3, q))
+                }
+            })
+            .collect();
+        (nb, pos)
+    });
+    let out = match &res {
+        Err(c) => c.clone(),
+        Ok((nb, pos)) => {
+            // oracle: neighbour *set* = cells at L1 distance 1, unit weights, no repetition;
+            // positions = enumeration order; index_of inverts position_of and is a bijection
+            for i in 0..n {
+                let mut got: Vec<usize> = nb[i].iter().map(|e| e.0).collect();
+                got.sort();
+                let want: Vec<usize> = (0..n).filter(|&j| l1(&c[i], &c[j]) == 1).collect();
+                if got != want {
+                    v.add("grid-neighbours", format!("cell {}: neighbours {:?}, L1-distance-1 cells {:?}", i, got, want));
+                    break;
+                }
+                if nb[i].iter().any(|e| e.1 != 1) {
+                    v.add("grid-neighbours", format!("cell {}: an edge weight is not 1", i));
+                    break;
+                }
+            }
+            for i in 0..n {
+                if pos[i].0[..] != c[i][..dim] || pos[i].1 != i {
+                    v.add("grid-position-index", format!("cell {}: position_of {:?}, index_of of it {}", i, pos[i].0, pos[i].1));
+                    break;
+                }
+            }
+            // index_of over every in-range position (surjectivity is the loop above)
+            for (i, q) in c.iter().enumerate() {
+                let k = if dim == 2 {
+                    coupe::verif::cartesian::index_of(g2, [q[0], q[1]])
+                } else {
+                    coupe::verif::cartesian::index_of(g3, *q)
+                };
+                if k != i {
+                    v.add("grid-position-index", format!("index_of({:?}) = {} but the cell is number {}", q, k, i));
+                    break;
+                }
+            }
+            let nbs: Vec<String> = nb.iter().map(|r| r.iter().map(|e| e.0.to_string()).collect::<Vec<_>>().join(",")).collect();
+            let ps: Vec<String> = pos
+                .iter()
+                .map(|(q, k)| format!("{}:{}", q.iter().map(|x| x.to_string()).collect::<Vec<_>>().join(","), k))
+                .collect();
+            format!("n={} nb={} pos={}", g.len(), nbs.join("|"), ps.join(" "))
+        }
+    };
+    if res.is_err() {
+        v.add("grid-panic", out.clone());
+    }
+    ctx.count(&format!("nbrs{}d", dim));
+    let idx = ctx.record(op.to_string(), out, n >= 2);
+    for (sig, what) in v.0 {
+        ctx.fail(idx, sig, what);
+    }
+}
+
+// ------------------------------------------------------------------ imbalance op
+
+fn run_imb(ctx: &mut Ctx, op: &str, t: &mut Toks) {
+    let parsed = (|| {
+        let k: usize = t.one()?;
+        let p: Vec<usize> = t.vec()?;
+        let ws: Vec<i64> = t.vec()?;
+        let ts: Vec<i64> = t.vec()?;
+        if !t.done() || k > 100_000 {
+            return None;
+        }
+        Some((k, p, ws, ts))
+    })();
+    let Some((k, p, ws, ts)) = parsed else {
+        ctx.record(op.to_string(), "bad-op".into(), false);
+        return;
+    };
+    let (loads, s1) = in_pools(|| coupe::imbalance::compute_parts_load(&p, k, ws.clone()));
+    let (mx, s2) = in_pools(|| coupe::imbalance::max_imbalance(k, &p, ws.clone()));
+    let (imb, s3) = in_pools(|| coupe::imbalance::imbalance(k, &p, ws.clone()).to_bits());
+    let (tgt, s4) = in_pools(|| coupe::imbalance::imbalance_target(&ts, &p, ws.clone()));
+    let out = format!(
+        "loads={} max={} imb={} tgt={}",
+        match &loads {
+            Ok(l) => format!("[{}]", join(l)),
+            Err(c) => c.clone(),
+        },
+        show(&mx),
+        match &imb {
+            Ok(b) => format!("{:x}", b),
+            Err(c) => c.clone(),
+        },
+        show(&tgt)
+    );
+    let mut v = Verdicts(vec![]);
+    if !(s1 && s2 && s3 && s4) {
+        v.add("pool-dependent", "the answer depends on the rayon pool size".into());
+    }
+    // closed forms; defined when the inputs meet the documented contract
+    let in_range = p.iter().all(|&x| x < k);
+    let contract = in_range && p.len() == ws.len() && k > 0;
+    let naive_loads = |kk: usize| -> Vec<i64> {
+        (0..kk).map(|j| p.iter().zip(&ws).filter(|(&q, _)| q == j).map(|(_, w)| *w).sum()).collect()
+    };
+    if contract {
+        ctx.count("imb:contract");
+        let nl = naive_loads(k);
+        if loads.as_ref() != Ok(&nl) {
+            v.add("parts-load", format!("compute_parts_load {:?} but the definition gives {:?}", loads, nl));
+        }
+        let want_mx = nl.iter().max().unwrap() - nl.iter().min().unwrap();
+        if mx != Ok(want_mx) {
+            v.add("max-imbalance", format!("max_imbalance {} but max-min is {}", show(&mx), want_mx));
+        }
+        // imbalance = max_k (L_k - T/K) / (T/K) = max_k (K L_k - T) / T as an exact rational
+        let total: i128 = nl.iter().map(|&x| x as i128).sum();
+        match &imb {
+            Ok(b) => {
+                let got = f64::from_bits(*b);
+                if total == 0 {
+                    if got != 0.0 {
+                        v.add("imbalance", format!("imbalance {} with zero total weight", got));
+                    }
+                } else {
+                    // max over parts of the rational (K L - T)/T, compared by cross-multiplication
+                    let mut best: Option<i128> = None; // numerator, denominator is `total`
+                    for &l in &nl {
+                        let num = k as i128 * l as i128 - total;
+                        best = Some(match best {
+                            None => num,
+                            Some(b0) => {
+                                // num/total > b0/total ?
+                                let gt = if total > 0 { num > b0 } else { num < b0 };
+                                if gt { num } else { b0 }
+                            }
+                        });
+                    }
+                    let exact = best.unwrap() as f64 / total as f64;
+                    let lmax = nl.iter().map(|x| x.abs()).max().unwrap() as f64;
+                    let tol = 1e-12 * (1.0 + (k as f64 * lmax / total as f64).abs());
+                    if !((got - exact).abs() <= tol) {
+                        v.add("imbalance", format!("imbalance {} but the closed form is {}", got, exact));
+                    }
+                }
+            }
+            Err(c) => v.add("imbalance", format!("imbalance {} inside the contract", c)),
+        }
+        if ts.len() == k {
+            let want = nl.iter().zip(&ts).map(|(l, t)| l - t).max().unwrap();
+            if tgt != Ok(want) {
+                v.add("imbalance-target", format!("imbalance_target {} but max(load-target) is {}", show(&tgt), want));
+            }
+        }
+    } else {
+        ctx.count("imb:outside_contract");
+        if k == 0 && p.len() == ws.len() {
+            // documented special case: no parts, imbalance 0
+            if imb != Ok(0f64.to_bits()) {
+                v.add("imbalance", format!("imbalance {} with zero parts", show(&imb.map(|b| f64::from_bits(b)))));
+            }
+        }
+    }
+    let nontrivial = contract && k >= 2 && p.len() >= 2;
+    let idx = ctx.record(op.to_string(), out, nontrivial);
+    for (sig, what) in v.0 {
+        ctx.fail(idx, sig, what);
+    }
+}
 
 pub fn run_op(ctx: &mut Ctx, op: &str) {
-    ctx.record(op.to_string(), "bad-op".into(), false);
+    let mut t = Toks(op.split_whitespace());
+    match t.0.next() {
+        Some("csr") => run_csr(ctx, op, &mut t),
+        Some("grid2") => run_grid(ctx, op, &mut t, 2),
+        Some("grid3") => run_grid(ctx, op, &mut t, 3),
+        Some("nbrs2") => run_nbrs(ctx, op, &mut t, 2),
+        Some("nbrs3") => run_nbrs(ctx, op, &mut t, 3),
+        Some("imb") => run_imb(ctx, op, &mut t),
+        _ => {
+            ctx.record(op.to_string(), "bad-op".into(), false);
+        }
+    }
+}
+
+// ------------------------------------------------------------------ generator
+
+fn csr_op(rows: &[Vec<(usize, i64)>], offset: usize, p: &[usize], ws: &[i64]) -> String {
+    let mut indptr = vec![offset];
+    let mut indices = vec![];
+    let mut data = vec![];
+    for r in rows {
+        for &(u, w) in r {
+            indices.push(u);
+            data.push(w);
+        }
+        indptr.push(offset + indices.len());
+    }
+    format!("csr {} {} {} {} {}", fmt_vec(&indptr), fmt_vec(&indices), fmt_vec(&data), fmt_vec(p), fmt_vec(ws))
+}
+
+fn rand_partition(ctx: &mut Ctx, n: usize) -> Vec<usize> {
+    let k = 1 + ctx.rng.usize(5);
+    match ctx.rng.usize(6) {
+        0 => vec![ctx.rng.usize(k); n],                                // one part
+        1 => (0..n).map(|i| i * k / n.max(1)).collect(),               // contiguous blocks
+        2 => (0..n).map(|i| i % k).collect(),                          // stripes
+        3 => (0..n).map(|_| ctx.rng.usize(k) * 1000 + 7).collect(),    // sparse part ids
+        _ => (0..n).map(|_| ctx.rng.usize(k)).collect(),
+    }
+}
+
+fn rand_weights(ctx: &mut Ctx, n: usize) -> Vec<i64> {
+    match ctx.rng.usize(5) {
+        0 => vec![1; n],
+        1 => (0..n).map(|_| ctx.rng.range(0, 3)).collect(),
+        2 => (0..n).map(|_| ctx.rng.range(-5, 20)).collect(),
+        3 => (0..n).map(|_| ctx.rng.range(0, 1_000_000_000)).collect(),
+        _ => (0..n).map(|_| ctx.rng.range(1, 100)).collect(),
+    }
+}
+
+fn gen_csr(ctx: &mut Ctx) {
+    let n = match ctx.rng.usize(10) {
+        0 => ctx.rng.usize(3),
+        1..=6 => 2 + ctx.rng.usize(10),
+        _ => 8 + ctx.rng.usize(if ctx.quick() { 30 } else { 60 }),
+    };
+    let shape = ctx.rng.usize(8);
+    let density = 1 + ctx.rng.usize(6); // expected entries per row
+    let mut rows: Vec<Vec<(usize, i64)>> = vec![vec![]; n];
+    let wmode = ctx.rng.usize(4);
+    let weight = |ctx: &mut Ctx| match wmode {
+        0 => 1,
+        1 => ctx.rng.range(1, 9),
+        2 => ctx.rng.range(-9, 9), // negative and explicit-zero entries
+        _ => ctx.rng.range(1, 1_000_000_000),
+    };
+    let has = |r: &Vec<(usize, i64)>, u: usize| r.iter().any(|e| e.0 == u);
+    let name = match shape {
+        0..=2 => {
+            // symmetric, maybe with a diagonal
+            for _ in 0..n * density / 2 {
+                let (a, b) = (ctx.rng.usize(n), ctx.rng.usize(n));
+                if a == b && ctx.rng.chance(1, 2) {
+                    continue;
+                }
+                if !has(&rows[a], b) {
+                    let w = weight(ctx);
+                    rows[a].push((b, w));
+                    if a != b {
+                        rows[b].push((a, w));
+                    }
+                }
+            }
+            "symmetric"
+        }
+        3 => {
+            // same pattern both ways, different weights
+            for _ in 0..n * density / 2 {
+                let (a, b) = (ctx.rng.usize(n), ctx.rng.usize(n));
+                if a != b && !has(&rows[a], b) {
+                    rows[a].push((b, weight(ctx)));
+                    rows[b].push((a, weight(ctx)));
+                }
+            }
+            "asym_weights"
+        }
+        4 => {
+            for _ in 0..n * density {
+                let (a, b) = (ctx.rng.usize(n), ctx.rng.usize(n));
+                if !has(&rows[a], b) {
+                    rows[a].push((b, weight(ctx)));
+                }
+            }
+            "asym_pattern"
+        }
+        5 => {
+            // only above / only below the diagonal
+            let upper = ctx.rng.chance(1, 2);
+            for _ in 0..n * density {
+                let (a, b) = (ctx.rng.usize(n), ctx.rng.usize(n));
+                if a != b {
+                    let (lo, hi) = (a.min(b), a.max(b));
+                    let (r, c) = if upper { (lo, hi) } else { (hi, lo) };
+                    if !has(&rows[r], c) {
+                        rows[r].push((c, weight(ctx)));
+                    }
+                }
+            }
+            "triangular"
+        }
+        6 => {
+            // few vertices carry everything: many empty rows / isolated vertices
+            let hubs = 1 + ctx.rng.usize(2);
+            for _ in 0..n * density / 2 {
+                let (a, b) = (ctx.rng.usize(hubs.min(n.max(1))), ctx.rng.usize(n));
+                if a != b && !has(&rows[a], b) {
+                    let w = weight(ctx);
+                    rows[a].push((b, w));
+                    rows[b].push((a, w));
+                }
+            }
+            "hubs_isolated"
+        }
+        _ => {
+            // path / ring
+            for i in 1..n {
+                let w = weight(ctx);
+                rows[i].push((i - 1, w));
+                rows[i - 1].push((i, w));
+            }
+            "path"
+        }
+    };
+    if n == 0 && shape != 0 {
+        // keep the empty graph rare
+    }
+    for r in rows.iter_mut() {
+        r.sort();
+    }
+    ctx.count(&format!("csr_shape:{}", name));
+    let p = rand_partition(ctx, n);
+    let ws = rand_weights(ctx, n);
+    // streams
+    let stream = ctx.rng.usize(20);
+    match stream {
+        0 | 1 => {
+            // separate stream: rows not sorted (precondition of the specialisation broken)
+            for r in rows.iter_mut() {
+                ctx.rng.shuffle(r);
+            }
+            if ctx.rng.chance(1, 3) && n > 0 {
+                // a repeated entry
+                let a = ctx.rng.usize(n);
+                if let Some(&e) = rows[a].first() {
+                    rows[a].push(e);
+                }
+            }
+            ctx.count("csr_stream:unsorted");
+            let op = csr_op(&rows, 0, &p, &ws);
+            run_op(ctx, &op);
+        }
+        2 => {
+            // a valid view whose indptr does not start at 0 (what `slice_outer` produces)
+            ctx.count("csr_stream:offset_indptr");
+            let off = 1 + ctx.rng.usize(5);
+            let op = csr_op(&rows, off, &p, &ws);
+            run_op(ctx, &op);
+        }
+        3 => {
+            // malformed: partition too short, or weights of another length
+            ctx.count("csr_stream:malformed");
+            let mut p2 = p.clone();
+            let mut ws2 = ws.clone();
+            match ctx.rng.usize(3) {
+                0 => {
+                    p2.truncate(ctx.rng.usize(n.max(1)));
+                }
+                1 => {
+                    ws2.truncate(ctx.rng.usize(n.max(1)));
+                }
+                _ => {
+                    ws2.extend([3, 4, 5]);
+                    p2.extend([0, 1]);
+                }
+            }
+            let op = csr_op(&rows, 0, &p2, &ws2);
+            run_op(ctx, &op);
+        }
+        _ => {
+            ctx.count("csr_stream:valid");
+            let op = csr_op(&rows, 0, &p, &ws);
+            run_op(ctx, &op);
+        }
+    }
+}
+
+fn grid_op(w: usize, h: usize, d: Option<usize>, p: &[usize], ws: &[i64]) -> String {
+    match d {
+        None => format!("grid2 {} {} {} {}", w, h, fmt_vec(p), fmt_vec(ws)),
+        Some(d) => format!("grid3 {} {} {} {} {}", w, h, d, fmt_vec(p), fmt_vec(ws)),
+    }
+}
+
+fn gen_grid(ctx: &mut Ctx) {
+    let three = ctx.rng.chance(2, 5);
+    let (w, h, d) = if three {
+        let m = if ctx.quick() { 5 } else { 6 };
+        (1 + ctx.rng.usize(m), 1 + ctx.rng.usize(m), Some(1 + ctx.rng.usize(m)))
+    } else {
+        (1 + ctx.rng.usize(12), 1 + ctx.rng.usize(12), None)
+    };
+    let n = w * h * d.unwrap_or(1);
+    let mut p = rand_partition(ctx, n);
+    let mut ws = rand_weights(ctx, n);
+    if ctx.rng.chance(1, 25) {
+        ctx.count("grid_stream:malformed");
+        match ctx.rng.usize(3) {
+            0 => p.truncate(ctx.rng.usize(n)),
+            1 => ws.truncate(ctx.rng.usize(n)),
+            _ => {
+                ws.push(9);
+                p.push(1)
+            }
+        }
+    }
+    let op = grid_op(w, h, d, &p, &ws);
+    run_op(ctx, &op);
+}
+
+fn gen_imb(ctx: &mut Ctx) {
+    let n = match ctx.rng.usize(6) {
+        0 => ctx.rng.usize(3),
+        _ => 1 + ctx.rng.usize(24),
+    };
+    let k = match ctx.rng.usize(8) {
+        0 => 1,
+        1 => 1 + ctx.rng.usize(12), // possibly more parts than elements: empty parts
+        _ => 1 + ctx.rng.usize(5),
+    };
+    let mut p: Vec<usize> = match ctx.rng.usize(4) {
+        0 => vec![ctx.rng.usize(k); n],
+        1 => (0..n).map(|i| i % k).collect(),
+        _ => (0..n).map(|_| ctx.rng.usize(k)).collect(),
+    };
+    let mut ws: Vec<i64> = match ctx.rng.usize(7) {
+        0 => vec![0; n],
+        1 => vec![1; n],
+        2 => (0..n).map(|_| ctx.rng.range(-10, 10)).collect(), // totals of either sign, or zero
+        3 => (0..n).map(|_| ctx.rng.range(0, 1_000_000_000_000)).collect(),
+        4 => {
+            let mut v: Vec<i64> = (0..n).map(|_| ctx.rng.range(0, 5)).collect();
+            if n > 0 {
+                let i = ctx.rng.usize(n);
+                v[i] = 100_000;
+            }
+            v
+        }
+        _ => (0..n).map(|_| ctx.rng.range(0, 100)).collect(),
+    };
+    let mut ts: Vec<i64> = (0..k).map(|_| ctx.rng.range(0, 200)).collect();
+    let mut k2 = k;
+    match ctx.rng.usize(30) {
+        0 => {
+            ctx.count("imb_stream:zero_parts");
+            k2 = 0;
+            ts.clear();
+            if ctx.rng.chance(1, 2) {
+                p.clear();
+                ws.clear();
+            }
+        }
+        1 => {
+            ctx.count("imb_stream:part_out_of_range");
+            if n > 0 {
+                let i = ctx.rng.usize(n);
+                p[i] = k + ctx.rng.usize(3);
+            }
+        }
+        2 => {
+            ctx.count("imb_stream:len_mismatch");
+            if ctx.rng.chance(1, 2) {
+                ws.push(5);
+            } else {
+                p.push(0);
+            }
+        }
+        3 => {
+            ctx.count("imb_stream:targets_len");
+            ts.pop();
+        }
+        _ => ctx.count("imb_stream:valid"),
+    }
+    let op = format!("imb {} {} {} {}", k2, fmt_vec(&p), fmt_vec(&ws), fmt_vec(&ts));
+    run_op(ctx, &op);
+}
+
+/// every 2-colouring of a grid
+fn exhaustive_grid(ctx: &mut Ctx, w: usize, h: usize, d: Option<usize>) -> u64 {
+    let n = w * h * d.unwrap_or(1);
+    let ws: Vec<i64> = (0..n as i64).map(|i| 1 + (i * 7) % 5).collect();
+    let mut count = 0;
+    for mask in 0u32..(1u32 << n) {
+        // colourings are counted up to the swap of the two colours: cell 0 has colour 0
+        if mask & 1 == 1 {
+            continue;
+        }
+        let p: Vec<usize> = (0..n).map(|i| (mask >> i & 1) as usize).collect();
+        let op = grid_op(w, h, d, &p, &ws);
+        run_op(ctx, &op);
+        count += 1;
+    }
+    count
+}
+
+pub fn generate(ctx: &mut Ctx) {
+    // 1. neighbour lists, positions and indices of every small grid
+    let (m2, m3) = if ctx.quick() { (12, 5) } else { (16, 7) };
+    for w in 1..=m2 {
+        for h in 1..=m2 {
+            run_op(ctx, &format!("nbrs2 {} {}", w, h));
+        }
+    }
+    for w in 1..=m3 {
+        for h in 1..=m3 {
+            for d in 1..=m3 {
+                run_op(ctx, &format!("nbrs3 {} {} {}", w, h, d));
+            }
+        }
+    }
+    ctx.notes.push(format!("exhaustive: neighbour lists / position_of / index_of of all 2-D grids up to {0}x{0} and all 3-D grids up to {1}x{1}x{1}", m2, m3));
+    // 2. every 2-colouring (up to colour swap) of every grid with at most `cells` cells
+    let cells = if ctx.quick() { 9 } else { 12 };
+    let mut total = 0;
+    for w in 1..=cells {
+        for h in 1..=cells {
+            if w * h <= cells {
+                total += exhaustive_grid(ctx, w, h, None);
+            }
+            for d in 2..=cells {
+                // d = 1 is covered by the random stream; keep the 3-D sweep to real 3-D grids
+                if w * h * d <= cells && w >= 1 && h >= 1 {
+                    total += exhaustive_grid(ctx, w, h, Some(d));
+                }
+            }
+        }
+    }
+    ctx.notes.push(format!("exhaustive: all 2-colourings (cell 0 fixed) of all 2-D and 3-D (depth >= 2) grids with <= {} cells: {} cases", cells, total));
+    // 3. random streams
+    for _ in 0..ctx.budget(2500, 60000) {
+        gen_csr(ctx);
+    }
+    for _ in 0..ctx.budget(500, 8000) {
+        gen_grid(ctx);
+    }
+    for _ in 0..ctx.budget(1500, 30000) {
+        gen_imb(ctx);
+    }
 }
